@@ -67,7 +67,7 @@ func (e *nilOkErr) Error() string {
 	return e.s
 }
 func (e *ptrErr) Error() string { return "ptr:" + e.s }
-func (e errSF) Error() string  { return "errSF:" + e.s }
+func (e errSF) Error() string   { return "errSF:" + e.s }
 func (e errSF) SafeFormat(p redact.SafePrinter, verb rune) {
 	p.SafeString("own-safeformat<")
 	p.SafeRune(redact.SafeRune(verb))
@@ -158,7 +158,7 @@ var c17Positions = []c17Pos{
 }
 
 var (
-	c17Once                         sync.Once
+	c17Once                        sync.Once
 	c17Real, c17Prox, c17ProxPanic [][]interface{}
 )
 
